@@ -365,6 +365,11 @@ pub struct Model {
     pub ddl_trail: Vec<String>,
     /// known-finding ids this run is allowed to use as hazards
     pub enabled_hazards: BTreeSet<String>,
+    /// follow the engine's UPDATE exactly where the update-in-place finding is listed (statement-level engines);
+    /// the crash engine keeps it a hazard because restart recovery DOES undo a loser's update
+    pub exact_updates: bool,
+    #[serde(skip)]
+    pub inplace_dirty: bool,
     /// transactions with an in-place-update hazard pending (KF-update-in-place)
     pub pending_update: BTreeSet<Tx>,
     /// transactions that re-inserted a unique key they deleted themselves (KF-reinsert-overwrites-index-entry
@@ -419,6 +424,8 @@ impl Model {
             quirk_marks: vec![],
             ddl_trail: vec![],
             enabled_hazards: enabled.clone(),
+            exact_updates: false,
+            inplace_dirty: false,
             pending_update: BTreeSet::new(),
             pending_reinsert: BTreeSet::new(),
             reopen_count: 0,
@@ -684,6 +691,7 @@ impl Model {
     /// Execute a statement for transaction t. On Err the model state is unchanged.
     pub fn exec(&mut self, t: Tx, s: &Stmt) -> Exp {
         let backup = (self.tables.clone(), self.taint.clone(), self.pending_update.clone());
+        self.inplace_dirty = false;
         match self.exec_inner(t, s) {
             Ok(e) => {
                 if s.is_ddl() {
@@ -696,6 +704,11 @@ impl Model {
                 e
             }
             Err(c) => {
+                if self.inplace_dirty {
+                    // an UPDATE that fails after it has overwritten rows in place keeps those rows changed; WHICH rows
+                    // depends on the scan order, so this stays a hazard
+                    self.hazard(KF_UPDATE_IN_PLACE);
+                }
                 self.tables = backup.0;
                 // hazards raised during a failing statement stay raised
                 let _ = (backup.1, backup.2);
@@ -853,6 +866,21 @@ impl Model {
                         // whatever happens to the update, so updating it in place cannot leak
                         let wholly_own = rr.versions.iter().all(|(x, _)| *x == t);
                         if wholly_own {
+                        } else if self.exact_updates && self.enabled_hazards.contains(KF_UPDATE_IN_PLACE) {
+                            // Listed finding with a crisp shape (exact quirk): every version of a row carries its CREATOR's
+                            // id (add_version_with ignores the updater's), so the new values are what everybody who sees
+                            // the row's creator reads from now on - at once, and whatever becomes of the updater.
+                            if others_active || self.txs[t as usize].explicit {
+                                self.quirk(KF_UPDATE_IN_PLACE);
+                            }
+                            if let Some(last) = self.tables[ti].rows[i].versions.last_mut() {
+                                if last.1 != nv {
+                                    self.inplace_dirty = true;
+                                }
+                                last.1 = nv;
+                            }
+                            n += 1;
+                            continue;
                         } else if others_active {
                             self.hazard(KF_UPDATE_IN_PLACE);
                         } else if self.enabled_hazards.contains(KF_UPDATE_IN_PLACE) {
@@ -1069,7 +1097,13 @@ impl Model {
                 for s in stmts {
                     let e = self.exec(t, s);
                     if let Exp::Err(c) = e {
-                        self.tables = backup;
+                        if self.exact_updates && self.enabled_hazards.contains(KF_UPDATE_IN_PLACE) {
+                            // rows overwritten in place by the batch's earlier statements stay overwritten (exact quirk);
+                            // everything else the batch did disappears with its aborted transaction
+                            let _ = backup;
+                        } else {
+                            self.tables = backup;
+                        }
                         self.abort_tx(t);
                         return vec![Exp::Err(c)];
                     }
